@@ -76,7 +76,7 @@ impl EditState {
                     continue;
                 }
                 removed_chars = (removed_chars as f32 / 2.0).ceil() as i32;
-                for x in area.x_range() {
+                for x in 0..area.get_width() {
                     let ch = if area.right() - x - removed_chars >= area.left() {
                         layer.get_char((area.right() - x - removed_chars, y))
                     } else {
@@ -281,6 +281,9 @@ impl EditState {
             if area.is_empty() {
                 return Ok(());
             }
+            if area.get_height() < 2 && area.get_width() < layer.get_width() {
+                return Ok(()); // a single row scrolls onto itself
+            }
             if area.get_width() >= layer.get_width() {
                 let op = super::undo_operations::UndoScrollWholeLayerUp::new(self.get_current_layer()?);
                 return self.push_undo_action(Box::new(op));
@@ -321,6 +324,9 @@ impl EditState {
             let area = get_area(sel, layer.get_rectangle());
             if area.is_empty() {
                 return Ok(());
+            }
+            if area.get_height() < 2 && area.get_width() < layer.get_width() {
+                return Ok(()); // a single row scrolls onto itself
             }
             if area.get_width() >= layer.get_width() {
                 let op = super::undo_operations::UndoScrollWholeLayerDown::new(self.get_current_layer()?);
